@@ -183,8 +183,12 @@ Exact(o) == [k |-> "exact", o |-> o]
 RefSpec(at, n, len) == [k |-> "ref", at |-> at, n |-> n, len |-> len]
 Utf8Res(mem, at, len) == IF Utf8Valid(Bytes(mem, at, len)) THEN Exact(Ok([at |-> at, len |-> len])) ELSE Exact(Err("Utf8"))
 FieldSpec(mem, name, f, it) ==
-  LET K == InfoKind(name) IN
-  CASE name = "module" /\ f = "module_size" ->
+  LET K == InfoKind(name)  R == RoundUp8(it.size) IN
+  \* the generic byte views of MaybeDynSized: the whole (padded) tag, its bytes after the header, its address
+  CASE f = "as_bytes" -> RefSpec(it.at, R, R)
+    [] f = "trait_payload" -> RefSpec(it.at + 8, R - 8, R - 8)
+    [] f = "as_ptr" -> RefSpec(it.at, 0, 0)
+    [] name = "module" /\ f = "module_size" ->
          LET st == Bytes(mem, it.at + 8, 4)  en == Bytes(mem, it.at + 12, 4) IN
          IF LtLE(en, st) THEN [k |-> "free"]                 \* end < start: unspecified, but controlled
          ELSE Exact(Val(SubLE(en, st, 0)))
